@@ -354,9 +354,7 @@ var treeFindings = func() map[string]bool {
 		"head-state-missing:reinsert-known-canonical-block-rolls-state-back",
 		"logs-never-announced:known-block-made-head-again",
 		"added-log-twice:already-canonical-block-made-head-again",
-		"restart-head-changed:pathdb-journal-failed-layer-stale",
 		"txlookup-wrong:stale-lookup-cache",
-		"head-state-incomplete:pathdb-dangling-sibling-layer-stale",
 		"canon-above-head:header-head-was-ahead-of-block-head",
 		"canon-above-head:reimport-of-pruned-canonical-blocks-rewinds-head-below-frozen",
 		"canon-receipts-missing:unexecuted-sidechain-block-canonicalised",
